@@ -83,6 +83,51 @@ CLAIMED['C20'] = (
     'HRF shape is not specified by the property: design matrices are checked structurally (columns, flags, range, mean, dof) at 1e-9; '
     'file-name shapes the code documents as unsupported are counted, not demanded.', '4/C20 and notes/C20.md')
 
+CLAIMED['C03'] = (
+    'TLA+ definitional model Compare.tla: exact statistics (dot products, centred sums, doubled ranks, concordance counts, '
+    'integer V(sigma)) with symmetry / range / permutation / pairing theorems checked by TLC; vectors replayed into compare() '
+    'and every compare_*; recorded calls recomputed by Trace_Compare.tla in multi-limb integer arithmetic',
+    'TLC enumerates all pairs of small integer RDM vectors (3 conditions exhaustively, 4 conditions on a grid), stacks, methods and '
+    'sigma_k catalogue, checks the spec-level theorems and the action properties (simultaneous condition permutation, argument '
+    'swap = transposition) and emits exact statistics; tau-a and rho-a are compared exactly, the other measures through their '
+    'sufficient statistics (last irrational step and V^-1 in a kernel that is cross-checked against the TLA+ values); Bures values '
+    'are exact for planar point configurations; calls recorded on larger random stacks are accepted only if value^2*S_aa*S_bb = S_ab^2 '
+    'within the rounding bound, evaluated by TLC.',
+    'Bounded integer grids; float tier against the kernel; conjugate-gradient tolerance 5e-5 for the whitened measures; '
+    'scipy.linalg.sqrtm only for non-planar Bures configurations.', '4/C03 and notes/C03.md')
+CLAIMED['C11'] = (
+    'TLA+ heap model DataStore.tla (Dataset / TemporalDataset objects with token cells as exact rationals, one action per operation, '
+    'Enabled/Apply); TLC enumerates all histories to a depth and checks CellAssoc / DescAttached / StepProps; behaviours replayed '
+    'into real objects; recorded histories validated by Trace_DataStore.tla',
+    'TLC explores every history of the dataset operations (split/subset by observation, channel, time; sort_by; merge; odd-even '
+    'splits; bin_time; time-as-observations/channels; DataFrame and dict round trips; copy; average-by) to depth 2 with full and '
+    'depth 3 with trimmed argument domains over all shapes incl. every size-1 dimension and an 18-row configuration for sort '
+    'stability, checking cell association, attached descriptors, partition / multiset / order / stability / bin-mean / conversion '
+    'properties on every transition; every behaviour is stepped through the real library with all live objects compared; random '
+    'recorded histories must be explained by the same operators.',
+    'Bounded shapes (<= 18 x 3 x 3); operations the documentation leaves open (listed in notes/C11.md) are excluded by Enabled and '
+    'probed once per run as unsupported; save/load is exercised by C16.', '4/C11 and notes/C11.md')
+CLAIMED['C18'] = (
+    'TLA+ model Simulation.tla (exact integer loop model RDM -> data -> calc_rdm, design balance, draw protocol, noise relation) '
+    'checked by TLC; configurations replayed into make_design / make_dataset / calc_rdm with forced numpy.random.uniform',
+    'TLC enumerates embeddable model RDMs from integer point configurations (2-5 conditions), channel counts, partitions, simulations, '
+    'signal strengths, design forms and flags with the exact expected RDM, design vectors and the protocol of random draws (one '
+    'signal draw when the signal is reused, one per simulation otherwise); every configuration is replayed with the draws forced '
+    'and RDM (rtol 1e-5 of the largest entry), descriptors, draw protocol and the noise-scaling relation are compared.',
+    'Draws whose Gram matrix is nearly singular (pivot < 1e-3) are re-drawn / counted, because the code clips pivots at 1e-15; '
+    'cases the property excludes (n_channel < n_cond, signal covariance) are negative controls only.', '4/C18 and notes/C18.md')
+CLAIMED['C19'] = (
+    'TLA+ model Searchlight.tla: integer sphere geometry, ravel order, centre rule, chunk partition, and a concurrent '
+    'Dispatch/Complete/Collect model whose interleavings TLC explores; all masks of small volumes replayed into the searchlight '
+    'functions; recorded calls recomputed by Trace_Searchlight.tla',
+    'TLC enumerates ALL masks of the 2x2x2 and 3x2x2 volumes x radii x thresholds with exact expected centres and neighbour lists, '
+    'checks the chunking partition and - in every interleaving of 3 workers x 4 tasks - that results are collected in centre order; '
+    'every case is replayed into get_volume_searchlight; per-centre RDMs (token data) are compared with direct calc_rdm below and '
+    'above the 1000-centre chunking limit; evaluate_models_searchlight is compared across n_jobs; random larger masks are recorded '
+    'and validated by the trace specification.',
+    'Worker schedules of joblib cannot be forced: the interleaving argument rests on the model, the implementation is compared across '
+    'n_jobs; masks without any accepted centre raise in the library and are counted as unsupported.', '4/C19 and notes/C19.md')
+
 NOT_YET = {
 }
 
